@@ -1,4 +1,7 @@
 import SFV.Model.Circuit
+import SFV.Model.Compare
 import SFV.Proofs.Circuit
+import SFV.Proofs.Compare
 import SFV.Props.C04
+import SFV.Props.C18
 import SFV.Driver.K1
